@@ -2,6 +2,7 @@ import SigHook.Model.RegistrySeq
 import SigHook.Model.Default
 import SigHook.Model.Origin
 import SigHook.Model.HalfLock
+import SigHook.Model.RegistryConc
 import SigHook.Gen.Orderings
 import SigHook.Gen.Consts
 import SigHook.Model.Env
@@ -199,6 +200,164 @@ def hlStep (d : HlDrv) (line : String) : HlDrv × String :=
   | ["---"] => ({}, "---")
   | _ => (d, "bad-op")
 
+/-! ### concurrent registry (L6) -/
+
+inductive SymOp where
+  | reg (checked : Bool) (sig : Int) (tag : Nat)
+  | unregTag (tag : Nat)
+  | unregSig (sig : Int)
+  | deliver (sig : Int)
+
+structure RcDrv where
+  setup : Array String := #[]
+  scripts : Array (List (String × SymOp)) := #[]   -- per thread: (text, op), consumed as they start
+  nested : List Nat := []                           -- threads that are deliveries nested on another thread
+  lines : Array String := #[]
+
+def parseSym (w : List String) : Option SymOp :=
+  match w with
+  | ["reg", s, t] => match parseInt? s, t.toNat? with | some s, some t => some (.reg true s t) | _, _ => none
+  | ["regu", s, t] => match parseInt? s, t.toNat? with | some s, some t => some (.reg false s t) | _, _ => none
+  | ["unreg", t] => ((t.drop 1).toString.toNat?).map .unregTag
+  | ["unregsig", s] => (parseInt? s).map .unregSig
+  | ["deliver", s] => (parseInt? s).map .deliver
+  | _ => none
+
+def fmtRet : RegConc.Ret → String
+  | .id s i => s!"ret id {s} {i}" | .err => "ret err" | .panic => "ret panic" | .bug => "ret bug"
+  | .bool b => s!"ret bool {b}" | .delivered => "ret delivered" | .notOurs d => s!"ret notours {fmtDisp d}"
+
+def rcSite (pfx : String) (o : HalfLock.Obs) (pc : HalfLock.Pc) (nextIsRead : Bool) : String :=
+  fmtHlObs pfx o ++ hlSiteOf pc nextIsRead
+
+/-- resolve a symbolic op against the ids handed out so far -/
+def resolveSym (ids : List (Nat × Int × Nat)) : SymOp → Option RegConc.Op
+  | .reg c s t => some (.register c s t)
+  | .unregTag tag => match ids.find? (fun e => e.1 == tag) with
+    | some (_, sig, id) => some (.unregister sig id)
+    | none => none
+  | .unregSig s => some (.unregisterSignal s)
+  | .deliver s => some (.deliver s)
+
+def rcRun (d : RcDrv) (sched : List Nat) : List String := Id.run do
+  let n := d.scripts.size
+  -- thread n is the setup thread
+  let mut disp : List (Int × Registry.Disp) := []
+  let mut setupOps : List (String × SymOp) := []
+  for l in d.setup do
+    match l.splitOn " " with
+    | ["foreign", s, k] => match parseInt? s, parseDisp k with
+      | some sig, some dd => disp := Registry.update sig dd disp
+      | _, _ => pure ()
+    | w => match parseSym w with
+      | some op => setupOps := setupOps ++ [(l, op)]
+      | none => pure ()
+  let mut s := RegConc.Sys.init disp ((List.replicate (n + 1) []))
+  let mut ids : List (Nat × Int × Nat) := []
+  let mut scripts := d.scripts.push setupOps
+  let mut lines : Array String := #[]
+  -- the schedule: setup thread runs alone first, silently
+  let mut fuel := 100000
+  let mut schedule := sched
+  let mut inSetup := true
+  let mut curTag : Array Nat := Array.replicate (n + 1) 0
+  while fuel > 0 do
+    fuel := fuel - 1
+    let mut t := n
+    if !inSetup then
+      match schedule with
+      | [] => break
+      | t' :: rest =>
+        schedule := rest
+        t := t'
+    -- feed the next symbolic op if the thread is idle with nothing to do
+    let th := s.threads[t]?.getD { script := [], pc := .idle }
+    let isIdle := match th.pc with | .idle => th.script.isEmpty | _ => false
+    let mut callText := ""
+    if isIdle then
+      match scripts[t]?.getD [] with
+      | [] =>
+        if inSetup then
+          inSetup := false
+          continue
+        else
+          lines := lines.push s!"t{t} NOT-ENABLED"
+          break
+      | (text, sop) :: rest =>
+        scripts := scripts.set! t rest
+        callText := text
+        match sop with
+        | .reg _ _ tag => curTag := curTag.set! t tag
+        | _ => pure ()
+        match resolveSym ids sop with
+        | some op => s := RegConc.setT s t { th with script := [op] }
+        | none =>
+          -- an id that was never handed out: the call is a no-op returning false
+          if !inSetup then
+            lines := lines.push s!"t{t} call {text}"
+            lines := lines.push s!"t{t} ret bool false"
+          continue
+    let hdPc := RegConc.hlPc s.hd t
+    let hfPc := RegConc.hlPc s.hf t
+    match RegConc.step regEnv Gen.YIELD_EVERY s t with
+    | none =>
+      lines := lines.push s!"t{t} NOT-ENABLED"
+      break
+    | some (s', out) =>
+      let inDeliv := match th.pc with
+        | .dFb _ | .dData _ | .dPlan .. | .dRelF _ => "H "
+        | _ => ""
+      let evText := match out.ev with
+        | .call _ => s!"call {callText}"
+        | .hd o => rcSite "data." o hdPc (match th.pc with | .dData _ => true | _ => false)
+        | .hf o => rcSite "fallback." o hfPc (match th.pc with | .dFb _ => true | _ => false)
+        | .sigaction sig set ok => s!"sys sigaction {sig} {if set then 1 else 0} = {if ok then "0" else "-1"}"
+        | .prev dd => s!"prev {fmtDisp dd}"
+        | .run tag => s!"run {tag}"
+      if !inSetup then
+        lines := lines.push s!"t{t} {inDeliv}{evText}"
+        if !out.dropped.isEmpty then lines := lines.push s!"t{t} drop-action {fmtTags out.dropped}"
+      match out.ret with
+      | some r =>
+        if !inSetup then lines := lines.push s!"t{t} {fmtRet r}"
+        match r with
+        | .id sig i =>
+          -- remember which tag got this id (the registration op that just returned)
+          ids := ids ++ [(curTag[t]?.getD 0, sig, i)]
+        | _ => pure ()
+      | none => pure ()
+      s := s'
+  let done := (List.range n).all (fun t =>
+    match s.threads[t]? with
+    | some th =>
+      -- a nested delivery whose host finished before it was ever started simply never happens
+      ((match th.pc with | .idle => th.script.isEmpty | _ => false) && (scripts[t]?.getD []).isEmpty) ||
+        (d.nested.contains t && (scripts[t]?.getD []).length == (d.scripts[t]?.getD []).length)
+    | none => true)
+  lines := lines.push (if done then "END done" else "END unfinished")
+  return lines.toList
+
+def rcStep (d : RcDrv) (line : String) : RcDrv × String :=
+  let w := line.trimAscii.toString.splitOn " "
+  match w with
+  | "setup" :: rest => ({ d with setup := d.setup.push (" ".intercalate rest) }, "")
+  | "schedule" :: rest => (d, "\n".intercalate (rcRun d (rest.filterMap (·.toNat?))))
+  | ["seed", _] | ["maxsteps", _] => (d, "")
+  | ["---"] => ({}, "---")
+  | t :: "nested" :: _ :: rest =>
+    match (t.drop 1).toString.toNat?, parseSym rest with
+    | some t, some op =>
+      let scripts := if d.scripts.size ≤ t then d.scripts ++ Array.replicate (t + 1 - d.scripts.size) [] else d.scripts
+      ({ d with scripts := scripts.modify t (· ++ [(" ".intercalate rest, op)]), nested := t :: d.nested }, "")
+    | _, _ => (d, "bad-op")
+  | t :: rest =>
+    match (t.drop 1).toString.toNat?, parseSym rest with
+    | some t, some op =>
+      let scripts := if d.scripts.size ≤ t then d.scripts ++ Array.replicate (t + 1 - d.scripts.size) [] else d.scripts
+      ({ d with scripts := scripts.modify t (· ++ [(" ".intercalate rest, op)]) }, "")
+    | _, _ => (d, "bad-op")
+  | _ => (d, "bad-op")
+
 partial def loop {σ} (h : IO.FS.Stream) (out : IO.FS.Stream) (st : σ) (f : σ → String → σ × String) :
     IO Unit := do
   let line ← h.getLine
@@ -218,4 +377,5 @@ def main (args : List String) : IO UInt32 := do
   | ["defaults"] => loop stdin stdout () defaultsStep; return 0
   | ["origin"] => loop stdin stdout () originStep; return 0
   | ["halflock"] => loop stdin stdout ({} : HlDrv) hlStep; return 0
+  | ["regconc"] => loop stdin stdout ({} : RcDrv) rcStep; return 0
   | _ => IO.eprintln "usage: driver registry"; return 2
